@@ -226,6 +226,9 @@ def generate(rng, tier):
                     for bk, bp in rng.sample(broken_variants(rng, path), 2):
                         queries.append((rng.choice(["GO", "GS"]), bp, None, None, bk))
             for kind, path, steps, leaf, _k in queries:
+                # what errno an earlier call left behind (a range error, an invalid argument) is nothing a lookup looks at
+                if rng.random() < 0.3:
+                    lines.append("ERRNO %d" % rng.choice([34, 34, 22, 2]))
                 lines.append("%s 0 %s" % (kind, hx(path)))
             # failing by-path setters / removers must change nothing
             bad = [q for q in queries if q[4] in ("lead_sep", "trail_sep", "stray_eq", "only_eq", "empty", "bad_qual", "mid_eq")][:4]
